@@ -53,43 +53,91 @@
 //@ item canonical.rs struct AuthParams
 //@ end
 
-/// the literal constants of canonical.rs denote the names the spec uses
-pub proof fn lemma_params_literals()
-    ensures //# C19 C05 C02 name=literal_constants
-        AUTHORIZATION.spec_bytes() == H_AUTHORIZATION(),
-        X_AMZ_ALGORITHM.spec_bytes() == Q_ALGORITHM(),
-        X_AMZ_CREDENTIAL.spec_bytes() == Q_CREDENTIAL(),
-        X_AMZ_DATE.spec_bytes() == Q_DATE(),
-        X_AMZ_DATE_LOWER.spec_bytes() == H_X_AMZ_DATE(),
-        DATE.spec_bytes() == H_DATE(),
-        X_AMZ_SECURITY_TOKEN.spec_bytes() == Q_SECURITY_TOKEN(),
-        X_AMZ_SECURITY_TOKEN_LOWER.spec_bytes() == H_X_AMZ_SECURITY_TOKEN(),
-        X_AMZ_SIGNED_HEADERS.spec_bytes() == Q_SIGNED_HEADERS(),
-        X_AMZ_SIGNATURE.spec_bytes() == SIG(),
-        AWS4_HMAC_SHA256.spec_bytes() == ALGO(),
-        CREDENTIAL@ == K_CREDENTIAL(),
-        SIGNATURE@ == K_SIGNATURE(),
-        SIGNED_HEADERS@ == K_SIGNED_HEADERS(),
-        AWS4_HMAC_SHA256_BYTES@ == ALGO(),
-        "host".spec_bytes() == HOST(),
-        ":authority".spec_bytes() == AUTHORITY(),
+/// the literal constants of canonical.rs denote the names the spec uses (one small lemma per constant: a function calls only those it needs,
+/// which keeps the number of sequence-literal terms in its query small)
+pub proof fn lemma_lit_AUTHORIZATION()
+    ensures AUTHORIZATION.spec_bytes() == H_AUTHORIZATION(), //# C19 C05 C02 name=literal_AUTHORIZATION
 {
     reveal_strlit("authorization"); assert(AUTHORIZATION@ =~= seq!['a', 'u', 't', 'h', 'o', 'r', 'i', 'z', 'a', 't', 'i', 'o', 'n']); vstd::utf8::is_ascii_chars_encode_utf8(AUTHORIZATION@); assert(AUTHORIZATION.spec_bytes() =~= H_AUTHORIZATION());
+}
+pub proof fn lemma_lit_X_AMZ_ALGORITHM()
+    ensures X_AMZ_ALGORITHM.spec_bytes() == Q_ALGORITHM(), //# C19 C05 C02 name=literal_X_AMZ_ALGORITHM
+{
     reveal_strlit("X-Amz-Algorithm"); assert(X_AMZ_ALGORITHM@ =~= seq!['X', '-', 'A', 'm', 'z', '-', 'A', 'l', 'g', 'o', 'r', 'i', 't', 'h', 'm']); vstd::utf8::is_ascii_chars_encode_utf8(X_AMZ_ALGORITHM@); assert(X_AMZ_ALGORITHM.spec_bytes() =~= Q_ALGORITHM());
+}
+pub proof fn lemma_lit_X_AMZ_CREDENTIAL()
+    ensures X_AMZ_CREDENTIAL.spec_bytes() == Q_CREDENTIAL(), //# C19 C05 C02 name=literal_X_AMZ_CREDENTIAL
+{
     reveal_strlit("X-Amz-Credential"); assert(X_AMZ_CREDENTIAL@ =~= seq!['X', '-', 'A', 'm', 'z', '-', 'C', 'r', 'e', 'd', 'e', 'n', 't', 'i', 'a', 'l']); vstd::utf8::is_ascii_chars_encode_utf8(X_AMZ_CREDENTIAL@); assert(X_AMZ_CREDENTIAL.spec_bytes() =~= Q_CREDENTIAL());
+}
+pub proof fn lemma_lit_X_AMZ_DATE()
+    ensures X_AMZ_DATE.spec_bytes() == Q_DATE(), //# C19 C05 C02 name=literal_X_AMZ_DATE
+{
     reveal_strlit("X-Amz-Date"); assert(X_AMZ_DATE@ =~= seq!['X', '-', 'A', 'm', 'z', '-', 'D', 'a', 't', 'e']); vstd::utf8::is_ascii_chars_encode_utf8(X_AMZ_DATE@); assert(X_AMZ_DATE.spec_bytes() =~= Q_DATE());
+}
+pub proof fn lemma_lit_X_AMZ_DATE_LOWER()
+    ensures X_AMZ_DATE_LOWER.spec_bytes() == H_X_AMZ_DATE(), //# C19 C05 C02 name=literal_X_AMZ_DATE_LOWER
+{
     reveal_strlit("x-amz-date"); assert(X_AMZ_DATE_LOWER@ =~= seq!['x', '-', 'a', 'm', 'z', '-', 'd', 'a', 't', 'e']); vstd::utf8::is_ascii_chars_encode_utf8(X_AMZ_DATE_LOWER@); assert(X_AMZ_DATE_LOWER.spec_bytes() =~= H_X_AMZ_DATE());
+}
+pub proof fn lemma_lit_DATE()
+    ensures DATE.spec_bytes() == H_DATE(), //# C19 C05 C02 name=literal_DATE
+{
     reveal_strlit("date"); assert(DATE@ =~= seq!['d', 'a', 't', 'e']); vstd::utf8::is_ascii_chars_encode_utf8(DATE@); assert(DATE.spec_bytes() =~= H_DATE());
+}
+pub proof fn lemma_lit_X_AMZ_SECURITY_TOKEN()
+    ensures X_AMZ_SECURITY_TOKEN.spec_bytes() == Q_SECURITY_TOKEN(), //# C19 C05 C02 name=literal_X_AMZ_SECURITY_TOKEN
+{
     reveal_strlit("X-Amz-Security-Token"); assert(X_AMZ_SECURITY_TOKEN@ =~= seq!['X', '-', 'A', 'm', 'z', '-', 'S', 'e', 'c', 'u', 'r', 'i', 't', 'y', '-', 'T', 'o', 'k', 'e', 'n']); vstd::utf8::is_ascii_chars_encode_utf8(X_AMZ_SECURITY_TOKEN@); assert(X_AMZ_SECURITY_TOKEN.spec_bytes() =~= Q_SECURITY_TOKEN());
+}
+pub proof fn lemma_lit_X_AMZ_SECURITY_TOKEN_LOWER()
+    ensures X_AMZ_SECURITY_TOKEN_LOWER.spec_bytes() == H_X_AMZ_SECURITY_TOKEN(), //# C19 C05 C02 name=literal_X_AMZ_SECURITY_TOKEN_LOWER
+{
     reveal_strlit("x-amz-security-token"); assert(X_AMZ_SECURITY_TOKEN_LOWER@ =~= seq!['x', '-', 'a', 'm', 'z', '-', 's', 'e', 'c', 'u', 'r', 'i', 't', 'y', '-', 't', 'o', 'k', 'e', 'n']); vstd::utf8::is_ascii_chars_encode_utf8(X_AMZ_SECURITY_TOKEN_LOWER@); assert(X_AMZ_SECURITY_TOKEN_LOWER.spec_bytes() =~= H_X_AMZ_SECURITY_TOKEN());
+}
+pub proof fn lemma_lit_X_AMZ_SIGNED_HEADERS()
+    ensures X_AMZ_SIGNED_HEADERS.spec_bytes() == Q_SIGNED_HEADERS(), //# C19 C05 C02 name=literal_X_AMZ_SIGNED_HEADERS
+{
     reveal_strlit("X-Amz-SignedHeaders"); assert(X_AMZ_SIGNED_HEADERS@ =~= seq!['X', '-', 'A', 'm', 'z', '-', 'S', 'i', 'g', 'n', 'e', 'd', 'H', 'e', 'a', 'd', 'e', 'r', 's']); vstd::utf8::is_ascii_chars_encode_utf8(X_AMZ_SIGNED_HEADERS@); assert(X_AMZ_SIGNED_HEADERS.spec_bytes() =~= Q_SIGNED_HEADERS());
+}
+pub proof fn lemma_lit_X_AMZ_SIGNATURE()
+    ensures X_AMZ_SIGNATURE.spec_bytes() == SIG(), //# C19 C05 C02 name=literal_X_AMZ_SIGNATURE
+{
     reveal_strlit("X-Amz-Signature"); assert(X_AMZ_SIGNATURE@ =~= seq!['X', '-', 'A', 'm', 'z', '-', 'S', 'i', 'g', 'n', 'a', 't', 'u', 'r', 'e']); vstd::utf8::is_ascii_chars_encode_utf8(X_AMZ_SIGNATURE@); assert(X_AMZ_SIGNATURE.spec_bytes() =~= SIG());
+}
+pub proof fn lemma_lit_AWS4_HMAC_SHA256()
+    ensures AWS4_HMAC_SHA256.spec_bytes() == ALGO(), //# C19 C05 C02 name=literal_AWS4_HMAC_SHA256
+{
     reveal_strlit("AWS4-HMAC-SHA256"); assert(AWS4_HMAC_SHA256@ =~= seq!['A', 'W', 'S', '4', '-', 'H', 'M', 'A', 'C', '-', 'S', 'H', 'A', '2', '5', '6']); vstd::utf8::is_ascii_chars_encode_utf8(AWS4_HMAC_SHA256@); assert(AWS4_HMAC_SHA256.spec_bytes() =~= ALGO());
+}
+pub proof fn lemma_lit_CREDENTIAL()
+    ensures CREDENTIAL@ == K_CREDENTIAL(), //# C19 C02 name=literal_CREDENTIAL
+{
     assert(CREDENTIAL@ =~= K_CREDENTIAL());
+}
+pub proof fn lemma_lit_SIGNATURE()
+    ensures SIGNATURE@ == K_SIGNATURE(), //# C19 C02 name=literal_SIGNATURE
+{
     assert(SIGNATURE@ =~= K_SIGNATURE());
+}
+pub proof fn lemma_lit_SIGNED_HEADERS()
+    ensures SIGNED_HEADERS@ == K_SIGNED_HEADERS(), //# C19 C02 name=literal_SIGNED_HEADERS
+{
     assert(SIGNED_HEADERS@ =~= K_SIGNED_HEADERS());
+}
+pub proof fn lemma_lit_AWS4_HMAC_SHA256_BYTES()
+    ensures AWS4_HMAC_SHA256_BYTES@ == ALGO(), //# C19 C02 name=literal_AWS4_HMAC_SHA256_BYTES
+{
     assert(AWS4_HMAC_SHA256_BYTES@ =~= ALGO());
+}
+pub proof fn lemma_lit_host()
+    ensures "host".spec_bytes() == HOST(), //# C05 name=literal_host
+{
     reveal_strlit("host"); assert("host"@ =~= seq!['h', 'o', 's', 't']); vstd::utf8::is_ascii_chars_encode_utf8("host"@); assert("host".spec_bytes() =~= HOST());
+}
+pub proof fn lemma_lit_authority()
+    ensures ":authority".spec_bytes() == AUTHORITY(), //# C05 name=literal_authority
+{
     reveal_strlit(":authority"); assert(":authority"@ =~= seq![':', 'a', 'u', 't', 'h', 'o', 'r', 'i', 't', 'y']); vstd::utf8::is_ascii_chars_encode_utf8(":authority"@); assert(":authority".spec_bytes() =~= AUTHORITY());
 }
 
@@ -171,6 +219,7 @@ impl CanonicalRequest {
     }
 
 //@ fn canonical.rs impl CanonicalRequest :: get_auth_parameters_from_auth_header
+//@ hideutf8
 //@ props C08 C19 C13 C02 C17
 //@ ret r
 //   (the parameter `auth_header` is shadowed by its trimmed version; renamed so that loop invariants can still name the parameter)
@@ -198,7 +247,10 @@ impl CanonicalRequest {
     hide(hmap);
     hide(qmap);
     broadcast use axiom_contains_str_key, axiom_maps_str_key_to_value, axiom_string_of_str_bytes, axiom_string_key_model;
-    proof { lemma_params_literals(); self.lemma_header_lookup(X_AMZ_DATE_LOWER); self.lemma_header_lookup(DATE); self.lemma_header_lookup(X_AMZ_SECURITY_TOKEN_LOWER); }
+    proof {
+        lemma_lit_X_AMZ_DATE_LOWER(); lemma_lit_DATE(); lemma_lit_X_AMZ_SECURITY_TOKEN_LOWER(); lemma_lit_CREDENTIAL(); lemma_lit_SIGNATURE(); lemma_lit_SIGNED_HEADERS(); lemma_lit_AWS4_HMAC_SHA256_BYTES();
+        self.lemma_header_lookup(X_AMZ_DATE_LOWER); self.lemma_header_lookup(DATE); self.lemma_header_lookup(X_AMZ_SECURITY_TOKEN_LOWER);
+    }
 //@ before 1 `let mut parameter_map = HashMap::new();`
     let ghost t = trim_ws(auth_header@);
     let ghost pieces = split(parameters@, 0x2c);
@@ -293,6 +345,7 @@ impl CanonicalRequest {
     }
 
 //@ fn canonical.rs impl CanonicalRequest :: get_auth_parameters_from_query_parameters
+//@ hideutf8
 //@ props C08 C19 C13 C02 C17
 //@ ret r
 //@ replace 1 `unescaped_signed_headers.split(';').map(|s| s.to_string()).collect::<Vec<String>>()` => `string_split_to_strings(&unescaped_signed_headers, ';')`
@@ -307,7 +360,7 @@ impl CanonicalRequest {
     hide(qmap);
     broadcast use axiom_contains_str_key, axiom_maps_str_key_to_value, axiom_string_of_str_bytes, axiom_string_key_model;
     proof {
-        lemma_params_literals();
+        lemma_lit_X_AMZ_CREDENTIAL(); lemma_lit_X_AMZ_SIGNATURE(); lemma_lit_X_AMZ_SIGNED_HEADERS(); lemma_lit_X_AMZ_DATE(); lemma_lit_X_AMZ_SECURITY_TOKEN(); lemma_lit_AWS4_HMAC_SHA256();
         lemma_str_bytes_inj(query_alg@, AWS4_HMAC_SHA256@);
         self.lemma_first_query(X_AMZ_CREDENTIAL);
         self.lemma_first_query(X_AMZ_SIGNATURE);
@@ -343,7 +396,7 @@ impl CanonicalRequest {
             self.qp().contains_key(string_of_bytes(Q_ALGORITHM())) ==> self.qp()[string_of_bytes(Q_ALGORITHM())]@.len() > 0
                 && self.first_query_alg() == str_bytes(self.qp()[string_of_bytes(Q_ALGORITHM())]@[0]@),
     {
-        lemma_params_literals();
+        lemma_lit_AUTHORIZATION(); lemma_lit_X_AMZ_ALGORITHM();
         axiom_string_of_str_bytes(AUTHORIZATION);
         axiom_string_of_str_bytes(X_AMZ_ALGORITHM);
         let ka = string_of_bytes(H_AUTHORIZATION());
@@ -360,6 +413,8 @@ impl CanonicalRequest {
     }
 
 //@ fn canonical.rs impl CanonicalRequest :: get_auth_parameters
+//@ hideutf8
+//@ attr #[verifier::rlimit(40)] // five loop queries in a large context: slack so that an unrelated edit elsewhere in the unit cannot tip it over the default limit
 //@ props C08 C05 C19 C13 C17
 //@ ret r
 //@ replace 1 `header == "host" || header == ":authority"` => `string_eq_str(header, "host") || string_eq_str(header, ":authority")`
@@ -405,7 +460,7 @@ impl CanonicalRequest {
     hide(qmap);
     broadcast use axiom_contains_str_key, axiom_maps_str_key_to_value, axiom_string_of_str_bytes, axiom_string_key_model;
     proof {
-        lemma_params_literals();
+        lemma_lit_AUTHORIZATION(); lemma_lit_X_AMZ_ALGORITHM();
         self.lemma_first_values();
     }
 //@ before 1 `let mut found_host = false;`
@@ -419,7 +474,7 @@ impl CanonicalRequest {
             forall|i: int| 0 <= i < params.signed_headers@.len() ==> *(#[trigger] it1.seq()[i]) == params.signed_headers@[i],
             found_host ==> signed.contains(HOST()) || signed.contains(AUTHORITY()),
 //@ before 1 `if header == "host" || header == ":authority" {`
-            proof { lemma_params_literals(); assert(str_bytes(header@) == signed[it1.index@]); }
+            proof { lemma_lit_host(); lemma_lit_authority(); assert(str_bytes(header@) == signed[it1.index@]); }
 //@ loop 2 iter it2
         invariant
             self.carrier_selected(params),
@@ -467,6 +522,7 @@ impl CanonicalRequest {
 //@ end
 
 //@ fn canonical.rs impl CanonicalRequest :: get_authenticator_from_auth_parameters
+//@ hideutf8
 //@ props C08 C01 C13 C16 C04 C17
 //@ ret r
 //   (Verus rejects `_` as a closure parameter)
@@ -506,6 +562,7 @@ impl CanonicalRequest {
     }
 
 //@ fn canonical.rs impl CanonicalRequest :: get_authenticator
+//@ hideutf8
 //@ props C08 C01 C05 C13 C16 C19 C17
 //@ ret r
 //@ spec
